@@ -263,6 +263,14 @@ def memcheck_pass(chk, inputs, results, tier):
     cand = sorted(cand[:(700 if tier == 'quick' else 20000)])
     prefix = [{'op': 'vm', 'vm': 0, 'maps': [[os.path.join(CORPUS, 'pp'), '/']], 'max_runtime_ms': 200, 'print_work': False}]
     items = [steps_for(inputs[n][2], inputs[n][1], 0) for n in cand]
+    # recorded findings that only memcheck can see are replayed on every run (reported as KNOWN-FINDING while they reproduce)
+    special = os.path.join(CORPUS, 'pp', 'special.sqf')
+    for e in chk.findings.open:
+        if e.get('probe_memcheck_cfg'):
+            inputs = list(inputs) + [('probe:' + e['id'], special, e['probe_memcheck_cfg'])]
+            cand = cand + [len(inputs) - 1]
+            items.append([{'op': 'vm', 'vm': 0, 'maps': [[os.path.join(CORPUS, 'pp'), '/']], 'max_runtime_ms': 200, 'print_work': False}, {'op': 'cfg', 'vm': 0, 'src': e['probe_memcheck_cfg'], 'path': special}])
+            chk.count('memcheck_probes')
     reports, deaths, n_run = core.run_memcheck(items, prefix_steps=prefix, batch=25, item_cpu_ms=400)
     chk.count('memcheck_inputs', n_run)
     chk.count('memcheck_reports', len(reports))
